@@ -2,10 +2,12 @@
 # run every registered check once (tier from $1, default quick) and print one line each
 cd "$(dirname "$0")/.."
 TIER=${1:-quick}
+OUT=${ALLCHECKS_OUT:-/tmp/allchecks_$TIER}
+mkdir -p "$OUT"
 for p in C01 C02 C03 C04 C05 C06 C07 C08 C09 C10 C11 C12 C13 C14 C15 C16 C17 C18 C19 C20; do
   s=$(date +%s)
-  ./run.py $p --tier $TIER > /tmp/allchecks_$p.out 2>/tmp/allchecks_$p.err
+  ./run.py $p --tier $TIER > $OUT/$p.out 2>$OUT/$p.err
   rc=$?
   e=$(date +%s)
-  echo "$p rc=$rc $((e-s))s $(grep -c '^VIOLATION' /tmp/allchecks_$p.out) violations, $(grep -c '^KNOWN-FINDING' /tmp/allchecks_$p.out) known, $(grep -c '^HARNESS-ERROR' /tmp/allchecks_$p.out) harness-errors | $(tail -1 /tmp/allchecks_$p.out | cut -c1-160)"
+  echo "$p rc=$rc $((e-s))s $(grep -c '^VIOLATION' $OUT/$p.out) violations, $(grep -c '^KNOWN-FINDING' $OUT/$p.out) known, $(grep -c '^HARNESS-ERROR' $OUT/$p.out) harness-errors | $(tail -1 $OUT/$p.out | cut -c1-160)"
 done
